@@ -1,8 +1,17 @@
-/* vocabulary for the Fortran edit-descriptor parsers ?ParseIntFormat / ?ParseFloatFormat.
- * The field is the FW-character array in_buf (NOT NUL-terminated: dreadhb/dreadrb fill it with fscanf("%16c")).
- * Ghost positions (universally chosen) say where the tokens of the descriptor sit; the expected values g_n, g_w are
- * therefore known without parsing. */
+/* vocabulary for the Fortran edit-descriptor parser ?ParseIntFormat.
+ * The field is FW = 16 characters and NOT NUL-terminated (dreadhb/dreadrb fill it with fscanf("%16c")).
+ * Ghost positions (universally chosen) say where the tokens sit:  [bl] ( [bl] n [bl] I|i [bl] w [bl] )  anything
+ * so the expected values g_n, g_w are known without parsing.
+ * RB=1: the function is the static copy in ?readrb.c, reached through ?readrb; the field then lives in that routine's buf[100]. */
+#if RB
+#define B(k) buf[k]
+#define NUM (*num)
+#define SIZE (*size)
+#else
 #define B(k) in_buf[k]
+#define NUM in_num
+#define SIZE in_size
+#endif
 #define BLANKS(q,a,b) FA(q, FW, ((a) <= q && q < (b)) ==> B(q) == ' ')
 /* a decimal number of 1 or 2 digits at position p (leading zero allowed) */
 #define NUMAT(p,len,v) (0 <= (v) && (v) <= 99 && (((len) == 1 && (v) <= 9 && B(p) == '0' + (v)) || ((len) == 2 && B(p) == '0' + (v) / 10 && B((p) + 1) == '0' + (v) % 10)))
